@@ -76,3 +76,21 @@ for _ul in (1,):
 # RETIRED (false alarm, not a finding): C08 quantifies over sources "without control characters"; TAB (0x09) is a control
 # character, so "<text:tab/> inside an attribute value" is outside the property.  Not registered.
 
+
+# ---- taint units: source text reaches an attribute only through the escaper (content-free; raw output primitives by contract)
+for _nm, _fn, _file, _ps, _psd, _tree, _dim, _img in (
+        ("html_link", "mmd_export_link_html", "html.c", "mmd_print_string_html", "mmd_print_string_html(DString * out, const char * str, bool obfuscate, bool line_breaks) { }", "mmd_export_token_tree_html", "__CPROVER_file_local_html_c_strip_dimension_units", False),
+        ("html_image", "mmd_export_image_html", "html.c", "mmd_print_string_html", "mmd_print_string_html(DString * out, const char * str, bool obfuscate, bool line_breaks) { }", "mmd_export_token_tree_html", "__CPROVER_file_local_html_c_strip_dimension_units", True),
+        ("odf_link", "mmd_export_link_opendocument", "opendocument-content.c", "mmd_print_string_opendocument", "mmd_print_string_opendocument(DString * out, const char * str, bool line_breaks) { }", "mmd_export_token_tree_opendocument", "__CPROVER_file_local_opendocument_content_c_correct_dimension_units", False),
+        ("odf_image", "mmd_export_image_opendocument", "opendocument-content.c", "mmd_print_string_opendocument", "mmd_print_string_opendocument(DString * out, const char * str, bool line_breaks) { }", "mmd_export_token_tree_opendocument", "__CPROVER_file_local_opendocument_content_c_correct_dimension_units", True)):
+    U("taint_" + _nm, ["C08", "C04"], "h_taint", ["C08/taint.c"], [_file], plain=True, lib=(), kind="bounded",
+      drop_bodies=[_ps, _tree, _dim],
+      defines=["-DI18N_DISABLED=1", "-DTAINT_FN=" + _fn, "-DTAINT_PRINT_STRING=" + _psd, "-DTAINT_TREE=" + _tree, "-DTAINT_DIM=" + _dim] + (["-DTAINT_IMAGE"] if _img else []),
+      cbmc_flags=["--unwind", "8", "--unwindset", "d_string_append_printf.0:64", "--unwinding-assertions", "--object-bits", "12"],
+      bounds={"attributes<=": 2, "attribute keys": "width / height / other", "string contents": "any (2 bytes each; the obligation does not depend on content)", "unwind": 8},
+      functions=[_fn],
+      callees={"d_string_append, d_string_append_c_array, d_string_append_printf(%s), print_token_tree_raw": "contract stubs: requires the text is not source-derived (tainted)",
+               _ps + ", " + _tree + ", label_from_token": "sanitisers: accept anything (their escaping contract: C04 units)",
+               _dim.split("_c_")[-1]: "contract stub: fresh string, tainted iff the argument is", "store_asset/extract_asset": "contract stubs (asset path is a generated name)"},
+      min_obligations=10, timeout=300, cost=10,
+      assumptions=[NOFAIL, "attribute keys are identifiers (parse_attributes / scanners out of reach), hence not tainted", "configuration -DI18N_DISABLED"])
